@@ -8,15 +8,22 @@ def run_part(c):
         "prim: scripts of put-calls (boundary corpus of every integer/varint/length primitive, nil/empty/long collections, "
         "strings at the length limits, nested length / varint-length (stale initial lengths) / CRC frames + random scripts) "
         "encoded by encode() and decoded back by the mirror get-calls at offset 0 or between junk; CRC of random buffers; "
-        "a case is non-trivial when its encoding has more than one byte; distinct = distinct (script, observation) JSON")
-    c.trust("harness go/harness/cmd/c09prim + shim go/shims/wire1_prim.go (script interpreter over packetEncoder/realDecoder, error-id mapping)")
+        "a case is non-trivial when its encoding has more than one byte; distinct = distinct (script, observation) JSON | "
+        "records: generated Record / recordsArray / RecordBatch (0-5 records, headers, nil/empty/large keys and values, all five "
+        "codecs, invalid versions/codecs/timestamps) / MessageSet (v0/v1 messages, compressed wrapper messages nested up to 2) / "
+        "Records union / ControlRecord / request header, encoded by sarama and decoded back (also embedded after junk); compressed "
+        "payloads compared through the decompressed structure")
+    c.trust("harness go/harness/cmd/c09prim + shims go/shims/wire1_prim.go, wire1_records.go (script interpreter over packetEncoder/realDecoder, "
+            "value printers, error-id mapping, table of the compress/decompress calls located by a framing walk)")
+    c.assume("compression codecs (gzip, snappy, lz4, zstd) are not modelled: Section variables with hypothesis decompress (compress x) = Some x; "
+             "the correspondence feeds the model the codec results sarama's compress/decompress computed for the case")
     c.trust("Coq 8.16.1 kernel + vm_compute (evaluation of the model on the harness cases)")
     c.assume("64-bit platform (Go int = int64); slices handed to realDecoder have capacity = length")
     c.assume("collections shorter than 2^31 (the prepEncoder's math.MaxInt32 checks are outside the model)")
     b = c.go_build("c09prim")
     if not b:
         return
-    n = 300 if c.tier == "quick" else 6000
+    n = 240 if c.tier == "quick" else 6000
     rc, out = c.run([b, "-out", c.build, "-seed", str(c.seed), "-n", str(n)], timeout=1200)
     if rc != 0:
         c.break_("corr", "c09prim harness run failed", out)
